@@ -206,7 +206,20 @@ func GenOp(t *rapid.T, r *Runner, pool *KeyPool, p *GenProfile) Op {
 		}
 		return op
 	case "fold":
-		return Op{K: "fold", N: U(t, 4, "stop")}
+		op := Op{K: "fold", N: U(t, 4, "stop")}
+		if p.Weights["put"] > 0 && Pct(t, 40, "foldwrites") {
+			// writes issued from inside the callback: Fold walks a snapshot, later writes must not disturb it
+			n := 1 + U(t, 3, "nfoldw")
+			for i := 0; i < n; i++ {
+				key := pool.Draw(t, "fwkey")
+				w := Op{K: "del", Key: key}
+				if Pct(t, 70, "fwput") {
+					w = Op{K: "put", Key: key, VLen: rapid.IntRange(0, 300).Draw(t, "fwlen"), VSeed: r.NextSeed()}
+				}
+				op.Race = append(op.Race, RaceOp{At: U(t, 4, "fwat"), Op: w})
+			}
+		}
+		return op
 	case "emptykey":
 		return Op{K: "emptykey", Which: Pick(t, []string{"put", "put0", "get", "del"}, "which")}
 	case "tear":
